@@ -87,7 +87,8 @@ def op_strategy(kind: str, cfg: dict):
     if kind == "copy":
         return st.fixed_dictionaries({"op": st.just("copy"), "who": idx, "to": st.one_of(st.none(), idx),
                                       "children": st.booleans(), "clear": st.booleans(),
-                                      "ws": st.sampled_from([0, 0, 1]), "twice": st.sampled_from([False, False, True])})
+                                      "ws": st.sampled_from([0, 0, 1]), "twice": st.sampled_from([False, False, True]),
+                                      "again_after_remove": st.sampled_from([False, False, True])})
     if kind == "remove":
         return st.fixed_dictionaries({"op": st.just("remove"), "who": idx,
                                       "via": st.sampled_from(["ws", "parent"]), "ws": st.sampled_from([0, 0, 0, 1])})
@@ -1012,6 +1013,20 @@ class TreeRun:
         if cross:
             self.stats["cross_copies"] += 1
         self.adopt_copy(wd, twd, uid, new, to, op["children"] if kind != "data" else False, cross)
+        if op.get("again_after_remove") and cross and kind != "data" and not self.stopped and "C06" in self.props:
+            # remove the copy from the target workspace (nobody holds it), then copy again: every identifier of the
+            # source is free there once more and has to be kept
+            first_uid = str(new.uid)
+            ent = twd.entity(first_uid)
+            del new
+            self.call(cls, twd.ws.remove_entity, ent)
+            del ent
+            twd.drop(first_uid)
+            gc.collect()
+            new = self.call(cls, src.copy, **kwargs)
+            if new is not None:
+                self.res.label("copy:again-after-remove")
+                self.adopt_copy(wd, twd, uid, new, to, op["children"], cross)
         if op.get("twice") and not self.stopped:
             # the same copy again: now the identifiers are taken in the target (fresh ones must be chosen and mapped)
             new = self.call(cls, src.copy, **kwargs)
